@@ -652,3 +652,35 @@ def w5(ctx):
 def w6(ctx):
     from .c08 import awaited_writes_obligations
     return awaited_writes_obligations(ctx)
+
+
+PER_ITEM_LOOPS = ["xandikos.web.StoreBasedCollection.iter_differences_since", "xandikos.store.Store._iter_with_filter_indexes",
+     "xandikos.store.Store._iter_with_filter_naive", "xandikos.store.git.GitStore.iter_with_etag", "xandikos.store.vdir.VdirStore.iter_with_etag",
+     "xandikos.store.git.GitStore.iter_changes", "xandikos.davcommon.MultiGetReporter.report", "xandikos.sync.SyncCollectionReporter.report",
+     "xandikos.web.StoreBasedCollection.members", "xandikos.caldav.CalendarQueryReporter.report",
+     "xandikos.carddav.AddressbookQueryReporter.report", "xandikos.webdav.traverse_resource"]
+
+
+@rule("C01", "H4", floor=12, kind="S",
+      desc="listings and reports describe each member with its own data: in every per-member loop of the listing / report "
+           "generators, what is yielded for the current member was computed in the current iteration (no variable left "
+           "over from the previous member, no pre-loop default standing in)")
+def h4(ctx):
+    from .common import per_item_obligations
+    return per_item_obligations(ctx, PER_ITEM_LOOPS)
+
+
+@rule("C01", "W7", floor=1, kind="N",
+      desc="a failed write is reported as failed: handlers for OSError in the store write functions never complete "
+           "normally (same obligations as C15/M11's first clause)")
+def w7(ctx):
+    from .c15 import write_error_obligations
+    return write_error_obligations(ctx)
+
+
+@rule("C01", "H5", floor=3, kind="N",
+      desc="reports list the live members: a member indexed while one query is answered is indexed for all keys, so that "
+           "no other query sees it as empty (same obligations as C10/X4)")
+def h5(ctx):
+    from .c10 import x4
+    return x4(ctx)
